@@ -43,6 +43,7 @@ def _verify_one(task):
         obl[n] = dict(name=n, verdict=o['verdict'], paths=o['paths'], time=round(o['time'], 4),
                       model=o['model'], line=o['line'], backend=o['backend'],
                       detail=o['detail'] if o['verdict'] == 'unknown' else '',
+                      reasons=list(o.get('reasons') or []), candidate=o.get('candidate'),
                       details=list(o.get('details') or []) if o['verdict'] == 'unknown' else [])
     return dict(key=key, strict=strict, status=r.status, error=r.error, obligations=obl, paths=r.paths,
                 unsupported=r.unsupported, notes=r.notes, vacuity=r.vacuity,
@@ -64,16 +65,18 @@ def _ask_again(job):
     cmds = [('cvc5', ['/usr/bin/cvc5', '--strings-exp', f'--tlimit={timeout_s * 1000}', path])]
     if z3bin:
         cmds.append(('z3', [z3bin, f'-T:{3 * timeout_s}', path]))
+    said = []
     try:
         for name, cmd in cmds:
             try:
                 out = subprocess.run(cmd, capture_output=True, text=True, timeout=3 * timeout_s + 10)
                 ans = out.stdout.strip().split('\n')[0] if out.stdout else ''
             except Exception:
-                ans = ''
+                ans = 'timeout'
+            said.append(f'{name}: {ans or "no answer"}')
             if ans == 'unsat':
-                return name
-        return ''
+                return name, said
+        return '', said
     finally:
         os.unlink(path)
 
@@ -94,10 +97,12 @@ def cvc5_second_opinion(results, timeout_s=20, jobs=8):
     if todo:
         flat = [(t, timeout_s) for _, texts in todo for t in texts]
         with ThreadPoolExecutor(max_workers=max(1, min(jobs, len(flat)))) as ex:
-            answers = list(ex.map(_ask_again, flat))
+            both = list(ex.map(_ask_again, flat))
+        answers = [b[0] for b in both]
         i = 0
         for o, texts in todo:
             got = answers[i:i + len(texts)]
+            o['second_opinions'] = [s for b in both[i:i + len(texts)] for s in b[1]]
             i += len(texts)
             if all(got):
                 o['verdict'] = 'proved'
@@ -121,6 +126,35 @@ def load_known():
 
 
 _REPLAY_CACHE = {}
+
+
+def load_baseline(pid):
+    """Names of the obligations that were discharged on the unchanged tree (written by
+    tools/runall.sh on a quiet run, committed).  Only used to tell 'was provable, is not any more'
+    from 'never was decided'."""
+    p = os.path.join(ROOT, 'contracts', 'baseline', f'{pid}.json')
+    if not os.path.exists(p):
+        return set()
+    try:
+        return set(json.load(open(p)).get('proved', []))
+    except Exception:
+        return set()
+
+
+def write_baseline(pid, tier, names):
+    d = os.path.join(ROOT, 'contracts', 'baseline')
+    os.makedirs(d, exist_ok=True)
+    p = os.path.join(d, f'{pid}.json')
+    old = set()
+    if tier == 'thorough' and os.path.exists(p):
+        old = load_baseline(pid)
+    json.dump(dict(property=pid, proved=sorted(set(names) | old)), open(p, 'w'), indent=0)
+
+
+def _gave_up(reason):
+    """The solver stopped by itself (quantifier instantiation / arithmetic incomplete), not on a time limit."""
+    r = (reason or '').lower()
+    return 'incomplete' in r and 'timeout' not in r and 'cancel' not in r and 'resource' not in r
 
 
 def _replay_job(job):
@@ -199,7 +233,13 @@ def run_property(pid, tier='quick', seed=0, jobs=16, verbose=False):
     keys = [k for k in allkeys if tier == 'thorough' or REG.contracts[k].tier != 'thorough']
     skipped_tier = [k for k in allkeys if k not in keys]
     assumed = sorted(k for k, c in REG.contracts.items() if c.assumed)
-    if not keys:
+    try:
+        from contracts.claims import CLAIMS as _CL
+        claimed_cat = _CL.get(pid, {}).get('category')
+    except ImportError:
+        claimed_cat = None
+    bounded_only = not keys and claimed_cat == 'exploration' and getattr(idx, 'EXTRA_CHECKS', {}).get(pid)
+    if not keys and not bounded_only:
         print(f'checker error: no contracts registered for {pid}')
         return 3
     # longest first
@@ -208,7 +248,9 @@ def run_property(pid, tier='quick', seed=0, jobs=16, verbose=False):
         and (tier == 'thorough' or REG.contracts[k].options.get('strict_tier', 'quick') == 'quick')]
     tasks.sort(key=lambda t: -REG.contracts[t[0]].options.get('weight', 1))
     jobs = min(jobs, len(tasks))
-    if jobs > 1:
+    if not tasks:
+        results = []
+    elif jobs > 1:
         ctx = mp.get_context('fork')
         with ctx.Pool(jobs) as pool:
             results = pool.map(_verify_one, tasks, chunksize=1)
@@ -225,6 +267,7 @@ def run_property(pid, tier='quick', seed=0, jobs=16, verbose=False):
             extra.append(dict(name=f'{fn}', verdict='error', detail=f'{ex!r}\n{traceback.format_exc()}',
                               kind='extra'))
     known = [k for k in load_known() if k.get('property') == pid and k.get('status') == 'known']
+    baseline = load_baseline(pid)
     os.makedirs(os.path.join(ROOT, 'replays', pid), exist_ok=True)
     violations, known_lines, undecided, errors = [], [], [], []
     n_obl = n_proved = 0
@@ -282,8 +325,25 @@ def run_property(pid, tier='quick', seed=0, jobs=16, verbose=False):
                                                         detail=rs.get('detail', '')) for d, rs in fails[:20]]),
                               open(rp, 'w'), indent=1, default=str)
                     violations.append((n, rp, False))
+                elif n in baseline and o.get('reasons') and all(_gave_up(x) for x in o['reasons']):
+                    # The obligation was discharged on the unchanged tree (contracts/baseline/<id>.json)
+                    # and now the solver gives up for a reason that is not a time limit (its
+                    # quantifier instantiation saturated on a candidate model; the second opinions
+                    # did not close it either): a failed obligation.  No failing input is known.
+                    rp = os.path.join(ROOT, 'replays', pid, _safe(n) + '.json')
+                    json.dump(dict(property=pid, obligation=n, function=r['key'], file=r['file'],
+                                   line=o['line'], verifier='pyvc/z3', solver_verdict='unknown',
+                                   solver_reasons=o['reasons'], second_opinions=o.get('second_opinions', []),
+                                   candidate_model_not_certified=o.get('candidate'),
+                                   note='obligation was discharged on the unchanged tree and is no longer '
+                                        'provable; the solver stopped without a time-out and without a '
+                                        'certified counterexample',
+                                   replay_candidates_tried=tried, failing_inputs=[]),
+                              open(rp, 'w'), indent=1, default=str)
+                    violations.append((n, rp, True))
                 else:
-                    undecided.append(f"{r['key']}: {n}: solver returned unknown (line {o['line']})"
+                    undecided.append(f"{r['key']}: {n}: solver returned unknown (line {o['line']}; "
+                                     f"{'; '.join(sorted(set(o.get('reasons') or [])))[:200]})"
                                      + (f'; bounded native search of {tried} inputs found no failure'
                                         if tried else ''))
             else:
@@ -322,7 +382,9 @@ def run_property(pid, tier='quick', seed=0, jobs=16, verbose=False):
             # a bounded stand-in is reported, never counted as a discharged obligation
             bounded.append(dict(name=e['name'], verdict='held on everything enumerated'
                                 if e['verdict'] == 'proved' else e['verdict'],
-                                evaluations=e.get('evaluations'), detail=e.get('detail', '')))
+                                evaluations=e.get('evaluations'), detail=e.get('detail', ''),
+                                distinct=e.get('distinct'), rule=e.get('rule', ''),
+                                samples=e.get('samples') or [], exhaustive=bool(e.get('exhaustive'))))
         else:
             n_obl += 1
         if e['verdict'] == 'proved':
@@ -348,7 +410,10 @@ def run_property(pid, tier='quick', seed=0, jobs=16, verbose=False):
                canaries_refuted=sum(1 for r in results if r['vacuity'].get('canary_refuted')),
                functions=len(results))
     exp = getattr(idx, 'EXPECTED_MIN_OBLIGATIONS', {}).get(pid)
-    if n_obl == 0:
+    if bounded_only:
+        if not bounded or not sum(b.get('evaluations') or 0 for b in bounded):
+            errors.append('vacuity: the bounded check evaluated nothing')
+    elif n_obl == 0:
         errors.append('vacuity: zero obligations generated')
     elif exp and n_obl < exp and not violations:
         errors.append(f'vacuity: only {n_obl} obligations generated, expected at least {exp}')
@@ -397,6 +462,17 @@ def run_property(pid, tier='quick', seed=0, jobs=16, verbose=False):
         known_findings=[k['what'] for k in known],
         undecided=undecided[:20], errors=errors[:10],
     )
+    if bounded_only:
+        # a bounded stand-in (contract checked at run time on the real functions over an enumerated
+        # scope): reported as exploration, never as proof
+        level = 'exploration'
+        cov.update(
+            evaluations=int(sum(b.get('evaluations') or 0 for b in bounded)),
+            distinct_nontrivial=int(sum(b.get('distinct') or 0 for b in bounded)),
+            rule=' || '.join(b.get('rule', '') for b in bounded),
+            samples=[s for b in bounded for s in (b.get('samples') or [])][:6] or [dict(note='no sample kept')],
+            exhaustive=all(b.get('exhaustive') for b in bounded),
+            checker_cmd=f'bin/vcheck {pid} --tier {tier}')
     if level == 'other':
         cov['explanation'] = (f'all {n_obl} obligations discharged, but part of the property is only covered by '
                               'a bounded stand-in (coverage.bounded_standins_not_proofs), see the claim text'
@@ -419,7 +495,14 @@ def run_property(pid, tier='quick', seed=0, jobs=16, verbose=False):
         ev['coverage']['errors'] = errors[:10]
         code = 3
     json.dump(ev, open(os.path.join(evdir, f'{pid}.json'), 'w'), indent=1)
+    if code == 0 and os.environ.get('VERIF_WRITE_BASELINE') and not os.environ.get('VERIF_EVIDENCE_DIR'):
+        write_baseline(pid, tier, [n for r in results for n, o in r['obligations'].items()
+                                   if o['verdict'] == 'proved'])
     # ---------------------------------------------------------------- report
+    if bounded_only:
+        print(f'{pid}: BOUNDED stand-in (not a proof): {cov.get("evaluations")} cases evaluated, '
+              f'{cov.get("distinct_nontrivial")} distinct, in {wall:.1f}s; '
+              + '; '.join(f"{b['verdict']}" for b in bounded))
     print(f'{pid}: {n_proved}/{n_obl} obligations discharged over {len(results)} functions '
           f'({sum(r["paths"] for r in results)} paths, z3 {by_backend.get("z3", 0)}, '
           f'cvc5 {by_backend.get("cvc5", 0)}, scan {by_backend.get("scan", 0)}) in {wall:.1f}s')
